@@ -86,6 +86,11 @@ func c09Peer(entries []jEntry) (sig, what string, compared int, outside bool) {
 					}
 					for j, u := range e.Trs {
 						if j != i && u.Mid == t.Mid {
+							if c09Wrapped(e.Trs) {
+								// greaterMid++ went past MaxInt64: the numbering restarts at MinInt64 and
+								// repeats itself at the next CreateOffer (C06's greater-mid-overflow)
+								return "greater-mid-overflow", fmt.Sprintf("call %d: CreateOffer gave transceiver %d the mid %q of transceiver %d after the counter wrapped", k, i, t.Mid, j), compared, outside
+							}
 							return "fresh-mid-equals-existing-transceiver-mid", fmt.Sprintf("call %d: CreateOffer gave transceiver %d the mid %q of transceiver %d", k, i, t.Mid, j), compared, outside
 						}
 					}
@@ -188,6 +193,15 @@ func c09Peer(entries []jEntry) (sig, what string, compared int, outside bool) {
 	return "", "", compared, outside
 }
 
+func c09Wrapped(trs []jTr) bool {
+	for _, t := range trs {
+		if t.Mid == "-9223372036854775808" {
+			return true
+		}
+	}
+	return false
+}
+
 func c09Unusable(secs []jSec) bool {
 	for _, r := range secs {
 		known := r.Kind == "audio" || r.Kind == "video" || r.Kind == "application"
@@ -266,6 +280,12 @@ func c09Corpus() []jCase {
 			{Op: "add", Kind: "video", Dir: "recvonly"},
 			{Op: "srd", Ty: "offer", Desc: &jDesc{Secs: []jSec{sec("audio", "7", "sendrecv")}, Group: jStr("BUNDLE 7")}},
 			{Op: "offer"}}},
+		// greaterMid wraps around after a remote mid MaxInt64-1: the second offer repeats a mid
+		{Peers: 1, Ops: []jOp{
+			{Op: "srd", Ty: "offer", Desc: &jDesc{Secs: []jSec{sec("video", "9223372036854775806", "sendrecv")}, Group: jStr("BUNDLE 9223372036854775806")}},
+			{Op: "answer"}, {Op: "sld", Ty: "answer"},
+			{Op: "add", Kind: "audio", Dir: "recvonly"}, {Op: "add", Kind: "audio", Dir: "recvonly"}, {Op: "offer"},
+			{Op: "add", Kind: "audio", Dir: "recvonly"}, {Op: "offer"}}},
 		// three rounds, both sides offering, additions on both sides
 		{Peers: 2, Ops: []jOp{
 			{P: 0, Op: "add", Kind: "audio", Dir: "sendrecv"}, {P: 0, Op: "add", Kind: "video", Dir: "sendrecv"}, {P: 0, Op: "dc"},
